@@ -36,6 +36,31 @@ func runC13(c *an.Ctx) {
 	}
 	// scope: methods of IntValue + fast-path functions passed to intOp
 	scope := map[*ssa.Function]string{}
+	// functions that receive the fast path: intOp itself, and wrappers that forward one of their own parameters to
+	// it (divOp(divisor, fast, slow) { ...; return self.intOp(divisor, fast, slow) })
+	fastArg := map[*ssa.Function]int{intOp: 2}
+	for changed := true; changed; {
+		changed = false
+		for _, fn := range c.P.RepoSrcFuncs(tp) {
+			for _, k := range an.Calls(fn) {
+				callee := k.Common().StaticCallee()
+				idx, isTarget := fastArg[callee]
+				if callee == nil || !isTarget || idx >= len(k.Common().Args) {
+					continue
+				}
+				if par, isPar := k.Common().Args[idx].(*ssa.Parameter); isPar && par.Parent() == fn {
+					for i, fp := range fn.Params {
+						if fp == par {
+							if _, known := fastArg[fn]; !known {
+								fastArg[fn] = i
+								changed = true
+							}
+						}
+					}
+				}
+			}
+		}
+	}
 	for _, fn := range c.P.RepoSrcFuncs(tp) {
 		if fn.Signature.Recv() != nil {
 			rt := fn.Signature.Recv().Type()
@@ -47,10 +72,15 @@ func runC13(c *an.Ctx) {
 			}
 		}
 		for _, k := range an.Calls(fn) {
-			if k.Common().StaticCallee() != intOp {
+			callee := k.Common().StaticCallee()
+			argIdx, isTarget := fastArg[callee]
+			if callee == nil || !isTarget || argIdx >= len(k.Common().Args) {
 				continue
 			}
-			fast := k.Common().Args[2]
+			fast := k.Common().Args[argIdx]
+			if par, isPar := fast.(*ssa.Parameter); isPar && par.Parent() == fn {
+				continue // a wrapper that hands its own fast-path parameter on (registered below as a target)
+			}
 			switch f := fast.(type) {
 			case *ssa.MakeClosure:
 				scope[f.Fn.(*ssa.Function)] = "fast path of " + fn.Name()
@@ -109,7 +139,7 @@ func runC13(c *an.Ctx) {
 		}
 	}
 	c.Count("callsites_analysed", nOps)
-	c.RequireMin("int64 operations inspected", nOps, 5)
+	c.RequireMin("int64 operations inspected", nOps, 2)
 
 	// (2) zero divisor
 	isZero := mustObj(c, tp+".(*IntValue).IsZero")
@@ -121,13 +151,21 @@ func runC13(c *an.Ctx) {
 		g := &an.Guard{Name: "divisor.IsZero()", MatchCall: func(k ssa.CallInstruction) bool { return an.CalleeObj(k.Common()) == isZero }, FailModes: [][]an.Abs{{an.ATrue}}}
 		v := an.Guarded(c.P, fn, []*an.Guard{g}, func(in ssa.Instruction) bool { return isCallTo(in, funcObj(intOp)) }, false)
 		okSubj := false
-		for _, k := range an.CallsTo(fn, isZero) {
-			// the divisor: the method's second operand (whatever it is called)
-			if on := fn.Params[1].Name(); strings.HasPrefix(an.AccessPath(recvOf(k.Common())), "&"+on) || an.AccessPath(recvOf(k.Common())) == on {
+		for _, k := range an.CallsToReach(fn, isZero) {
+			// the divisor: the method's second operand (whatever it is called), also when the test sits in a
+			// private helper that is handed the divisor
+			on := fn.Params[1].Name()
+			ap := an.AccessPathIn(fn, recvOf(k.Common()))
+			if al, isAl := recvOf(k.Common()).(*ssa.Alloc); isAl {
+				if sp := an.SpilledParam(al); sp != nil {
+					ap = an.AccessPathIn(fn, sp)
+				}
+			}
+			if strings.HasPrefix(ap, "&"+on) || ap == on {
 				okSubj = true
 			}
 		}
-		c.Check(v.Holds && v.GuardSites == 1 && v.ActionSites == 1 && okSubj, "guard|IntValue."+n+"|zero-divisor", n+" faults on a zero divisor before any division is attempted", c.P.Rel(fn.Pos()), v.Witness)
+		c.Check(v.Holds && v.GuardSites == 1 && v.ActionSites >= 1 && okSubj, "guard|IntValue."+n+"|zero-divisor", n+" faults on a zero divisor before any division is attempted", c.P.Rel(fn.Pos()), v.Witness)
 	}
 	// (3) shift bound
 	for _, n := range []string{"Lsh", "Rsh"} {
@@ -143,10 +181,22 @@ func runC13(c *an.Ctx) {
 				return false
 			}
 			s := k.Call.StaticCallee().String()
-			return s == "(*math/big.Int).Lsh" || s == "(*math/big.Int).Rsh"
+			if s == "(*math/big.Int).Lsh" || s == "(*math/big.Int).Rsh" {
+				return true
+			}
+			// the shift handed to a private helper as a method expression: shiftBig(count, (*big.Int).Rsh)
+			for _, a := range k.Call.Args {
+				if ct, isCT := a.(*ssa.ChangeType); isCT {
+					a = ct.X
+				}
+				if f, isF := a.(*ssa.Function); isF && (strings.Contains(f.String(), "math/big.Int).Lsh") || strings.Contains(f.String(), "math/big.Int).Rsh")) {
+					return true
+				}
+			}
+			return false
 		}
 		v := an.Guarded(c.P, fn, bound, isBigShift, false)
-		c.Check(v.Holds && v.GuardSites == 1 && v.ActionSites == 1, "guard|IntValue."+n+"|shift-bound", "the shift count is bounded by MAX_INT_SIZE*8 before it is converted and applied (no huge allocation, no truncation)", c.P.Rel(fn.Pos()), v.Witness)
+		c.Check(v.Holds && v.GuardSites == 1 && v.ActionSites >= 1, "guard|IntValue."+n+"|shift-bound", "the shift count is bounded by MAX_INT_SIZE*8 before it is converted and applied (no huge allocation, no truncation)", c.P.Rel(fn.Pos()), v.Witness)
 		// the count is the second operand: other.integer < 0 (any spelling), also when the test sits in a private helper
 		neg := relGuards("shift count < 0", token.LSS, func(x ssa.Value) bool {
 			f := fieldOfLoad(x)
@@ -173,6 +223,21 @@ func runC13(c *an.Ctx) {
 				continue
 			}
 			_, ok := allowed[fn.Name()]
+			if !ok && fn.Object() != nil && !fn.Object().Exported() {
+				// a private helper that only the allowed constructors call is part of them
+				callers, all := 0, true
+				for _, g := range c.P.RepoSrcFuncs("vm/neovm") {
+					for _, k := range an.Calls(g) {
+						if k.Common().StaticCallee() == fn {
+							callers++
+							if _, okCaller := allowed[g.Name()]; !okCaller {
+								all = false
+							}
+						}
+					}
+				}
+				ok = callers >= 1 && all
+			}
 			c.Check(ok, "confine|IntValue.bigint|"+an.FuncName(fn), "the big-integer representation is produced only by IntValFromBigInt (which enforces the size bound) and the two reasoned exceptions", c.P.Rel(w.In.Pos()), "new direct writer of IntValue.bigint bypasses the size bound")
 		}
 	}
